@@ -157,9 +157,28 @@ var valKinds = smooth([]wop{{"int", 6}, {"str", 2}, {"nil", 1}, {"addr", 2}, {"e
 var extDraw = smooth([]wop{{"0", 5}, {"1", 2}, {"2", 2}, {"3", 1}})
 var histLens = []int{12, 20, 8, 30, 16, 25, 6, 10, 28, 14, 22, 18, 7, 24, 9, 26, 11, 29, 13, 27, 15, 23, 17, 21, 19, 5, 4, 3, 2, 1}
 
+// profile selects the op and name mix of a sub-check.
+type profile struct {
+	ops, opsNoCreate, names []string
+}
+
+var profGeneral, profModules profile
+
+// the "modules" mix concentrates on module creation, path lookup and the calls
+// that rebind or remove module names, over few names, so that paths of length 2
+// and 3 resolve often
+var moduleWeights = []wop{
+	{"GetEnvFromPath", 24}, {"Define", 6}, {"Delete", 4}, {"DeleteGlobal", 3}, {"Set", 3}, {"DefineGlobal", 2},
+	{"Get", 2}, {"DefineValue", 1}, {"GetValueSymbols", 1}, {"SetExternalLookup", 1}, {"String", 1},
+	{"NewModule", 20}, {"NewEnv", 5}, {"Copy", 3}, {"DeepCopy", 3}, {"NewRoot", 1},
+}
+
 func init() {
 	opsAll = smooth(opWeights)
 	opsNoCreate = smooth(opWeights[:len(opWeights)-nCreating])
+	profGeneral = profile{ops: opsAll, opsNoCreate: opsNoCreate, names: nameDraw}
+	profModules = profile{ops: smooth(moduleWeights), opsNoCreate: smooth(moduleWeights[:len(moduleWeights)-nCreating]),
+		names: smooth([]wop{{"a", 5}, {"b", 4}, {"m", 4}, {"c", 2}, {"e", 1}, {"", 1}, {"a.b", 1}})}
 }
 
 func genVal(t *rapid.T, step, live int, valueForm bool) *Val {
@@ -198,7 +217,10 @@ type kpath struct {
 	path   []string
 }
 
-func gen(t *rapid.T) Case {
+func gen(t *rapid.T) Case        { return genWith(t, &profGeneral) }
+func genModules(t *rapid.T) Case { return genWith(t, &profModules) }
+
+func genWith(t *rapid.T, pr *profile) Case {
 	c := Case{RootExt: genExt(t)}
 	n := rapid.SampledFrom(histLens).Draw(t, "n")
 	live := 1
@@ -211,7 +233,7 @@ func gen(t *rapid.T) Case {
 		if len(used) > 0 && rapid.IntRange(0, 9).Draw(t, "usedname") < 6 {
 			return used[len(used)-1-rapid.IntRange(0, len(used)-1).Draw(t, "ui")]
 		}
-		return rapid.SampledFrom(nameDraw).Draw(t, "name")
+		return rapid.SampledFrom(pr.names).Draw(t, "name")
 	}
 	for i := 0; i < n; i++ {
 		var op Op
@@ -224,18 +246,18 @@ func gen(t *rapid.T) Case {
 			pendingPath = false
 			op.Op = "GetEnvFromPath"
 		} else if live >= maxLive {
-			op.Op = rapid.SampledFrom(opsNoCreate).Draw(t, "op")
+			op.Op = rapid.SampledFrom(pr.opsNoCreate).Draw(t, "op")
 		} else {
-			op.Op = rapid.SampledFrom(opsAll).Draw(t, "op")
+			op.Op = rapid.SampledFrom(pr.ops).Draw(t, "op")
 		}
 		op.S = genScope(t, live)
 		switch op.Op {
 		case "Define", "DefineGlobal":
-			op.Name = rapid.SampledFrom(nameDraw).Draw(t, "name")
+			op.Name = rapid.SampledFrom(pr.names).Draw(t, "name")
 			op.V = genVal(t, i, live, false)
 			usedV = append(usedV, op.Name)
 		case "DefineValue", "DefineGlobalValue":
-			op.Name = rapid.SampledFrom(nameDraw).Draw(t, "name")
+			op.Name = rapid.SampledFrom(pr.names).Draw(t, "name")
 			op.V = genVal(t, i, live, true)
 			usedV = append(usedV, op.Name)
 		case "Set":
@@ -249,7 +271,7 @@ func gen(t *rapid.T) Case {
 		case "Type":
 			op.Name = name(usedT)
 		case "DefineType", "DefineGlobalType", "DefineReflectType", "DefineGlobalReflectType":
-			op.Name = rapid.SampledFrom(nameDraw).Draw(t, "name")
+			op.Name = rapid.SampledFrom(pr.names).Draw(t, "name")
 			op.T = i + 1
 			if rapid.IntRange(0, 9).Draw(t, "niltype") == 9 {
 				op.T = 0
@@ -261,7 +283,7 @@ func gen(t *rapid.T) Case {
 			modOf = append(modOf, -1)
 			live++
 		case "NewModule":
-			op.Name = rapid.SampledFrom(nameDraw).Draw(t, "name")
+			op.Name = rapid.SampledFrom(pr.names).Draw(t, "name")
 			usedV = append(usedV, op.Name)
 			if len(modScopes) > 0 && rapid.Bool().Draw(t, "nest") {
 				// nest inside an existing module so that longer paths resolve
@@ -1037,4 +1059,6 @@ func TestC12(t *testing.T) {
 	defer c.Finish()
 	c.Rule("histories of 1..30 env API calls (Define/DefineValue/DefineGlobal[Value]/Set[Value]/Get[Value]/Addr/Delete/DeleteGlobal/DefineType/DefineReflectType/DefineGlobal[Reflect]Type/Type/Get{Value,Type}Symbols/NewEnv/env.NewEnv/NewModule/GetEnvFromPath(len 0..3)/Copy/DeepCopy/String/SetExternalLookup) on a growing forest of <=12 live scopes, names from {a,b,c,m,\"\",int64,bool,e,a.b,x.y.z,.}, values unique per step (int64, string, nil, addressable int64, a live scope as module alias), three map-backed external lookups; after every call result and the state of every live scope are compared with a dictionary-chain model; non-trivial = >=6 executed calls addressing/creating >=3 scopes and a delete/copy/module/path call after a successful define in a non-root scope; distinct by history")
 	h.Run(c, "history", c.N(6000, 60000), gen, oracle)
+	c.Rule("sub-check 'modules': same oracle and non-triviality rule, op mix concentrated on NewModule/GetEnvFromPath/Define/Delete/DeleteGlobal/Set/Copy/DeepCopy over the names {a,b,m,c,e,\"\",a.b} so that module paths of length 2 and 3 resolve often")
+	h.Run(c, "modules", c.N(1500, 15000), genModules, oracle)
 }
